@@ -30,3 +30,82 @@ Proof.
     replace (N.to_nat ((len / bs + 1) * bs)) with (N.to_nat (len / bs + 1) * c_bs c)%nat by lia.
     apply Nat.mod_mul. lia.
 Qed.
+
+Lemma fst_bind_ok {A B} (m : M A) (f : A -> M B) b :
+  fst (bind m f) = Ok b -> exists a, fst m = Ok a /\ fst (f a) = Ok b.
+Proof. rewrite fst_bind. destruct (fst m) as [a| |]; try discriminate. eauto. Qed.
+
+Lemma pack_into_ok f buf off vs d : fits f vs -> fst (pack_into f buf off vs) = Ok d ->
+  (off + fmt_size f <= length buf)%nat
+  /\ d = firstn off buf ++ pack_bytes f vs ++ skipn (off + fmt_size f) buf.
+Proof.
+  intros Hf. unfold pack_into. rewrite (pack_fits _ _ Hf), bind_ret_l, (pack_bytes_length _ _ Hf).
+  destruct (off + fmt_size f <=? length buf)%nat eqn:E; [| discriminate].
+  cbn [ret fst]. intros H; inversion H. split; [apply Nat.leb_le; exact E | reflexivity].
+Qed.
+
+Section Icv.
+  Variable enc : bytes -> bytes -> bytes -> bytes.
+  Variable mac : bytes -> bytes -> bytes.
+
+  (** The last hash_size octets of a protected datagram are integrity.compute(sk_a, everything before them), and
+      the header's length field (octets 24..27), which lies inside that MACed prefix, is the total length. *)
+  Lemma encode_icv cr m d :
+    (forall k x, length (mac k x) = c_icv cr) -> (0 < c_icv cr)%nat ->
+    encode enc mac (Some cr) m = Ok d ->
+    slice_from_neg d (c_icv cr) = mac (c_sk_a cr) (slice_to_neg d (c_icv cr))
+    /\ ((28 + c_icv cr <= length d)%nat -> be_decode (slice d 24 28) = N.of_nat (length d)).
+  Proof.
+    intros Hmac Hicv. unfold encode, encode_m. intros H.
+    apply fst_bind_ok in H as (ps & _ & H).
+    apply fst_bind_ok in H as (header & _ & H).
+    apply fst_bind_ok in H as (pd & _ & H).
+    apply fst_bind_ok in H as (data' & Hd' & H).
+    set (data := header ++ pd) in *.
+    set (checksum := mac (c_sk_a cr) (slice_to_neg data' (c_icv cr))) in *.
+    assert (Hcl : length checksum = c_icv cr) by apply Hmac.
+    destruct (length data' <? length checksum)%nat eqn:Elt; [discriminate|]. apply Nat.ltb_ge in Elt.
+    assert (Hf2 : fits (fmt_Message_to_bytes_2 (length checksum)) [VB checksum]) by (cbn; auto).
+    apply (pack_into_ok _ _ _ _ _ Hf2) in H as [_ Hd].
+    cbn [fmt_Message_to_bytes_2 fmt_size pack_bytes] in Hd. rewrite app_nil_r in Hd.
+    replace (length data' - length checksum + (length checksum + 0))%nat with (length data') in Hd by lia.
+    rewrite skipn_all, app_nil_r in Hd.
+    set (pre := firstn (length data' - length checksum) data') in *.
+    assert (Hpl : length pre = (length data' - length checksum)%nat) by (unfold pre; rewrite firstn_length; lia).
+    assert (Hdl : length d = length data') by (rewrite Hd, app_length; lia).
+    assert (Hto : slice_to_neg d (c_icv cr) = pre).
+    { unfold slice_to_neg. destruct (c_icv cr) eqn:E; [lia|]. rewrite <- E, Hdl, <- Hcl, <- Hpl, Hd.
+      apply firstn_app_exact. }
+    assert (Hto' : slice_to_neg data' (c_icv cr) = pre).
+    { unfold slice_to_neg. destruct (c_icv cr) eqn:E; [lia|]. rewrite <- E, <- Hcl. reflexivity. }
+    split.
+    - rewrite Hto. unfold slice_from_neg. destruct (c_icv cr) eqn:E; [lia|]. rewrite <- E, Hdl, <- Hcl, <- Hpl, Hd.
+      rewrite skipn_app_exact. unfold checksum. rewrite Hto'. reflexivity.
+    - intros Hlen.
+      assert (Hf1 : fits fmt_Message_to_bytes_1 [VN (N.of_nat (length data))]).
+      { unfold pack_into in Hd'. cbn [fits fmt_Message_to_bytes_1]. rewrite pow4. split; [| exact I].
+        cbn [pack fmt_Message_to_bytes_1] in Hd'. rewrite pow4 in Hd'.
+        destruct (N.of_nat (length data) <? 4294967296)%N eqn:E; [apply N.ltb_lt; exact E | discriminate]. }
+      apply (pack_into_ok _ _ _ _ _ Hf1) in Hd' as [Hle Hd'].
+      cbn [fmt_Message_to_bytes_1 fmt_size pack_bytes] in Hd', Hle. rewrite app_nil_r in Hd'.
+      unfold hdr_length_offset in *.
+      assert (Hdatal : length data' = length data).
+      { rewrite Hd', !app_length, firstn_length, skipn_length, be_encode_length. lia. }
+      assert (Hs : slice d 24 28 = be_encode 4 (N.of_nat (length data))).
+      { unfold slice. rewrite Hd. unfold pre. rewrite Hd'.
+        set (A := firstn 24 data). assert (HA : length A = 24%nat) by (unfold A; rewrite firstn_length; lia).
+        set (B := be_encode 4 _). set (C := skipn (24 + (4 + 0)) data).
+        assert (HB : length B = 4%nat) by apply be_encode_length.
+        rewrite firstn_app. rewrite firstn_length.
+        replace (Nat.min (length (A ++ B ++ C) - length checksum) (length (A ++ B ++ C))) with (length (A ++ B ++ C) - length checksum)%nat by lia.
+        rewrite <- HA at 1. rewrite <- app_assoc.
+        assert (Hn : (28 <= length (A ++ B ++ C) - length checksum)%nat).
+        { rewrite <- Hd', Hdatal. rewrite Hdl, Hdatal in Hlen. lia. }
+        rewrite firstn_app, HA. rewrite (firstn_all2 A) by lia.
+        rewrite <- app_assoc, skipn_app_exact.
+        rewrite firstn_app, HB. rewrite (firstn_all2 B) by lia.
+        replace (28 - 24)%nat with (length B) by lia. rewrite <- app_assoc, firstn_app_exact. reflexivity. }
+      rewrite Hs, be_decode_encode by (destruct Hf1 as [Hf1 _]; rewrite pow4 in Hf1; exact Hf1).
+      rewrite Hdl, Hdatal. reflexivity.
+  Qed.
+End Icv.
